@@ -77,10 +77,7 @@ macro_rules! acc_unicode {
         }
     )* };
 }
-acc_unicode!(
-    ALPHABETIC, LETTER, UPPERCASE_LETTER, LOWERCASE_LETTER, NUMBER, DECIMAL_NUMBER, PUNCTUATION, SYMBOL, SEPARATOR, SPACE_SEPARATOR,
-    WHITE_SPACE, HAN, LATIN, GREEK, EMOJI, MATH, UPPERCASE, LOWERCASE, XID_START, XID_CONTINUE
-);
+include!(concat!(env!("OUT_DIR"), "/uni.rs"));
 impl AccShow for SOI {
     fn acc(&self, out: &mut String) {
         out.push_str("(soi)");
@@ -294,7 +291,35 @@ impl<T: AccShow + Clone + PartialEq, IG: AccShow + Clone + PartialEq, const SKIP
 }
 
 // ------------------------------------------------------------------------------------------------
-// sequences: every accessor of `seq!`
+// sequences: every accessor of `seq!`.  The `*_body!` macros render a VALUE through its public API and
+// need the arity only (no impl on the type): the generated code uses them for arities whose types may
+// live in the generated module or in the library, depending on the tree under test.
+
+#[macro_export]
+macro_rules! acc_seq_body {
+    ($s:expr, $out:expr, $n:literal, $( $t:tt, )+ ) => {{
+        let s = $s;
+        let out: &mut String = $out;
+        let m = s.get_matched();
+        out.push_str(concat!("(seq ", stringify!($n), " (m"));
+        $( out.push(' '); $crate::AccShow::acc(m.$t, out); )+
+        out.push(')');
+        let ar = s.as_ref();
+        let ar_ok = true $(&& ::std::ptr::eq(ar.$t, m.$t))+;
+        out.push_str(" (ar "); out.push($crate::pm(ar_ok)); out.push(')');
+        let im = s.clone().into_matched();
+        let im_ok = true $(&& &im.$t == m.$t)+;
+        out.push_str(" (im "); out.push($crate::pm(im_ok)); out.push(')');
+        let all = s.get_all();
+        out.push_str(" (all");
+        $( out.push(' '); $crate::skipped_atom(out, all.$t, ::std::ptr::eq(&all.$t.matched, m.$t)); )+
+        out.push(')');
+        let ia = s.clone().into_all();
+        let ia_ok = true $(&& &ia.$t == all.$t)+;
+        out.push_str(" (ia "); out.push($crate::pm(ia_ok)); out.push(')');
+        out.push(')');
+    }};
+}
 
 #[macro_export]
 macro_rules! acc_seq {
@@ -303,98 +328,93 @@ macro_rules! acc_seq {
             for $name<$(::pest_typed::predefined_node::Skipped<$T, IG, SKIP>,)+>
         {
             fn acc(&self, out: &mut String) {
-                let m = self.get_matched();
-                out.push_str(concat!("(seq ", stringify!($n), " (m"));
-                $( out.push(' '); $crate::AccShow::acc(m.$t, out); )+
-                out.push(')');
-                let ar = self.as_ref();
-                let ar_ok = true $(&& ::std::ptr::eq(ar.$t, m.$t))+;
-                out.push_str(" (ar "); out.push($crate::pm(ar_ok)); out.push(')');
-                let im = self.clone().into_matched();
-                let im_ok = true $(&& &im.$t == m.$t)+;
-                out.push_str(" (im "); out.push($crate::pm(im_ok)); out.push(')');
-                let all = self.get_all();
-                out.push_str(" (all");
-                $( out.push(' '); $crate::skipped_atom(out, all.$t, ::std::ptr::eq(&all.$t.matched, m.$t)); )+
-                out.push(')');
-                let ia = self.clone().into_all();
-                let ia_ok = true $(&& &ia.$t == all.$t)+;
-                out.push_str(" (ia "); out.push($crate::pm(ia_ok)); out.push(')');
-                out.push(')');
+                $crate::acc_seq_body!(self, out, $n, $($t,)+);
             }
         }
     };
 }
 
 // ------------------------------------------------------------------------------------------------
-// choices: every accessor of `choices!`, the four helper chains, `match_choices!`
+// choices: every accessor of `choices!`, the four helper chains, `match_choices!`.
+// Closure number k is the k-th closure handed to the chain / the k-th arm of `match_choices!`; accessor
+// number k is the method `_k()`.  Nothing below assumes that the two numberings agree.
+
+#[macro_export]
+macro_rules! acc_choice_body {
+    ($s:expr, $out:expr, $n:literal, ($v0:ident, $k0:literal), $( ($v:ident, $k:literal), )* ; ($vl:ident, $kl:literal)) => {{
+        use ::std::fmt::Write as _;
+        let s = $s;
+        let out: &mut String = $out;
+        out.push_str(concat!("(choice ", stringify!($n), " "));
+        // every accessor
+        out.push(if s.$v0().is_some() { '1' } else { '0' });
+        $( out.push(if s.$v().is_some() { '1' } else { '0' }); )*
+        out.push(if s.$vl().is_some() { '1' } else { '0' });
+        // where the accessors say the payload lives, and what it looks like
+        let mut addr: Option<*const ()> = None;
+        let mut pdbg: Option<String> = None;
+        if let Some(x) = s.$v0() { addr = Some(x as *const _ as *const ()); pdbg = Some(format!("{:?}", x)); }
+        $( if let Some(x) = s.$v() { addr = Some(x as *const _ as *const ()); pdbg = Some(format!("{:?}", x)); } )*
+        if let Some(x) = s.$vl() { addr = Some(x as *const _ as *const ()); pdbg = Some(format!("{:?}", x)); }
+        let log = ::std::cell::RefCell::new(Vec::<(usize, bool)>::new());
+        let dump = |out: &mut String, tag: &str| {
+            let _ = write!(out, " ({}", tag);
+            for (k, ok) in log.borrow().iter() { let _ = write!(out, " {}{}", k, $crate::pm(*ok)); }
+            out.push(')');
+            log.borrow_mut().clear();
+        };
+        // if_then(..).else_if(..)….else_then(..)
+        let r_if: usize = s
+            .if_then(|x| { log.borrow_mut().push(($k0, addr == Some(x as *const _ as *const ()))); $k0 })
+            $( .else_if(|x| { log.borrow_mut().push(($k, addr == Some(x as *const _ as *const ()))); $k }) )*
+            .else_then(|x| { log.borrow_mut().push(($kl, addr == Some(x as *const _ as *const ()))); $kl });
+        dump(out, "if");
+        // reference().else_if(..)….else_then(..)
+        let r_rf: usize = s
+            .reference()
+            .else_if(|x| { log.borrow_mut().push(($k0, addr == Some(x as *const _ as *const ()))); $k0 })
+            $( .else_if(|x| { log.borrow_mut().push(($k, addr == Some(x as *const _ as *const ()))); $k }) )*
+            .else_then(|x| { log.borrow_mut().push(($kl, addr == Some(x as *const _ as *const ()))); $kl });
+        dump(out, "rf");
+        // clone().consume().else_if(..)…  (by value: compared with the accessor's payload through `{:?}`)
+        let r_co: usize = s
+            .clone()
+            .consume()
+            .else_if(|x| { log.borrow_mut().push(($k0, pdbg == Some(format!("{:?}", x)))); $k0 })
+            $( .else_if(|x| { log.borrow_mut().push(($k, pdbg == Some(format!("{:?}", x)))); $k }) )*
+            .else_then(|x| { log.borrow_mut().push(($kl, pdbg == Some(format!("{:?}", x)))); $kl });
+        dump(out, "co");
+        // clone().consume_if_then(..).else_if(..)…
+        let r_ci: usize = s
+            .clone()
+            .consume_if_then(|x| { log.borrow_mut().push(($k0, pdbg == Some(format!("{:?}", x)))); $k0 })
+            $( .else_if(|x| { log.borrow_mut().push(($k, pdbg == Some(format!("{:?}", x)))); $k }) )*
+            .else_then(|x| { log.borrow_mut().push(($kl, pdbg == Some(format!("{:?}", x)))); $kl });
+        dump(out, "ci");
+        let _ = write!(out, " (ret {} {} {} {})", r_if, r_rf, r_co, r_ci);
+        // match_choices!  (expands to `generics::ChoiceN::_k(x)`: `generics` must be in scope at the call site)
+        let mc: (usize, bool) = ::pest_typed_derive::match_choices!(s {
+            x => ($k0, addr == Some(x as *const _ as *const ())),
+            $( x => ($k, addr == Some(x as *const _ as *const ())), )*
+            x => ($kl, addr == Some(x as *const _ as *const ())),
+        });
+        let _ = write!(out, " (mc {}{})", mc.0, $crate::pm(mc.1));
+        // the payload, through the accessors
+        if let Some(x) = s.$v0() { out.push(' '); $crate::AccShow::acc(x, out); }
+        $( if let Some(x) = s.$v() { out.push(' '); $crate::AccShow::acc(x, out); } )*
+        if let Some(x) = s.$vl() { out.push(' '); $crate::AccShow::acc(x, out); }
+        out.push(')');
+    }};
+}
 
 #[macro_export]
 macro_rules! acc_choice {
     ($name:ident, $n:literal, ($T0:ident, $v0:ident, $k0:literal), $( ($T:ident, $v:ident, $k:literal), )* ; ($TL:ident, $vl:ident, $kl:literal)) => {
-        impl<$T0: $crate::AccShow + Clone + PartialEq, $($T: $crate::AccShow + Clone + PartialEq,)* $TL: $crate::AccShow + Clone + PartialEq> $crate::AccShow
+        impl<$T0: $crate::AccShow + Clone + PartialEq + ::core::fmt::Debug, $($T: $crate::AccShow + Clone + PartialEq + ::core::fmt::Debug,)* $TL: $crate::AccShow + Clone + PartialEq + ::core::fmt::Debug> $crate::AccShow
             for $name<$T0, $($T,)* $TL>
         {
             fn acc(&self, out: &mut String) {
-                use ::std::fmt::Write as _;
-                out.push_str(concat!("(choice ", stringify!($n), " "));
-                // every accessor
-                out.push(if self.$v0().is_some() { '1' } else { '0' });
-                $( out.push(if self.$v().is_some() { '1' } else { '0' }); )*
-                out.push(if self.$vl().is_some() { '1' } else { '0' });
-                // where the accessors say the payload lives
-                let mut addr: Option<*const ()> = None;
-                if let Some(x) = self.$v0() { addr = Some(x as *const $T0 as *const ()); }
-                $( if let Some(x) = self.$v() { addr = Some(x as *const $T as *const ()); } )*
-                if let Some(x) = self.$vl() { addr = Some(x as *const $TL as *const ()); }
-                let log = ::std::cell::RefCell::new(Vec::<(usize, bool)>::new());
-                let dump = |out: &mut String, tag: &str| {
-                    let _ = write!(out, " ({}", tag);
-                    for (k, ok) in log.borrow().iter() { let _ = write!(out, " {}{}", k, $crate::pm(*ok)); }
-                    out.push(')');
-                    log.borrow_mut().clear();
-                };
-                // if_then(..).else_if(..)….else_then(..)
-                let r_if: usize = self
-                    .if_then(|x| { log.borrow_mut().push(($k0, addr == Some(x as *const $T0 as *const ()))); $k0 })
-                    $( .else_if(|x| { log.borrow_mut().push(($k, addr == Some(x as *const $T as *const ()))); $k }) )*
-                    .else_then(|x| { log.borrow_mut().push(($kl, addr == Some(x as *const $TL as *const ()))); $kl });
-                dump(out, "if");
-                // reference().else_if(..)….else_then(..)
-                let r_rf: usize = self
-                    .reference()
-                    .else_if(|x| { log.borrow_mut().push(($k0, addr == Some(x as *const $T0 as *const ()))); $k0 })
-                    $( .else_if(|x| { log.borrow_mut().push(($k, addr == Some(x as *const $T as *const ()))); $k }) )*
-                    .else_then(|x| { log.borrow_mut().push(($kl, addr == Some(x as *const $TL as *const ()))); $kl });
-                dump(out, "rf");
-                // clone().consume().else_if(..)…
-                let r_co: usize = self
-                    .clone()
-                    .consume()
-                    .else_if(|x| { log.borrow_mut().push(($k0, self.$v0().map_or(false, |y| *y == x))); $k0 })
-                    $( .else_if(|x| { log.borrow_mut().push(($k, self.$v().map_or(false, |y| *y == x))); $k }) )*
-                    .else_then(|x| { log.borrow_mut().push(($kl, self.$vl().map_or(false, |y| *y == x))); $kl });
-                dump(out, "co");
-                // clone().consume_if_then(..).else_if(..)…
-                let r_ci: usize = self
-                    .clone()
-                    .consume_if_then(|x| { log.borrow_mut().push(($k0, self.$v0().map_or(false, |y| *y == x))); $k0 })
-                    $( .else_if(|x| { log.borrow_mut().push(($k, self.$v().map_or(false, |y| *y == x))); $k }) )*
-                    .else_then(|x| { log.borrow_mut().push(($kl, self.$vl().map_or(false, |y| *y == x))); $kl });
-                dump(out, "ci");
-                let _ = write!(out, " (ret {} {} {} {})", r_if, r_rf, r_co, r_ci);
-                // match_choices!
-                let mc: (usize, bool) = ::pest_typed_derive::match_choices!(self {
-                    x => ($k0, addr == Some(x as *const $T0 as *const ())),
-                    $( x => ($k, addr == Some(x as *const $T as *const ())), )*
-                    x => ($kl, addr == Some(x as *const $TL as *const ())),
-                });
-                let _ = write!(out, " (mc {}{})", mc.0, $crate::pm(mc.1));
-                // the payload, through the accessors
-                if let Some(x) = self.$v0() { out.push(' '); $crate::AccShow::acc(x, out); }
-                $( if let Some(x) = self.$v() { out.push(' '); $crate::AccShow::acc(x, out); } )*
-                if let Some(x) = self.$vl() { out.push(' '); $crate::AccShow::acc(x, out); }
-                out.push(')');
+                $crate::acc_choice_body!(self, out, $n, ($v0, $k0), $( ($v, $k), )* ; ($vl, $kl));
             }
         }
     };
@@ -493,20 +513,21 @@ fn show_token_list<R: RuleType>(ts: &[Token<'_, R>]) -> String {
     out.push(']');
     out
 }
-fn pair_part<'i, R: RuleType, N: Pair<'i, R> + Pairs<'i, R>>(node: &N) -> String {
+fn pair_part<'i, R: RuleType, N: Pair<'i, R> + Pairs<'i, R> + AccShow>(node: &N) -> String {
     let mut tok = String::new();
     show_token(&node.as_token(), &mut tok);
     let mut thin = String::new();
     vh_common::show_thin(&node.as_thin_token(), &mut thin);
     format!(
-        "tok={}\tthin={}\tkids={}\tsoc={}",
+        "acc={}\ttok={}\tthin={}\tkids={}\tsoc={}",
+        show(node),
         tok,
         thin,
         show_token_list(&node.children()),
         show_token_list(&node.self_or_children())
     )
 }
-fn trav_tree_with<'i, I: Input<'i>, R: RuleType, N: TypedNode<'i, R> + PairTree<'i, R> + Pairs<'i, R>>(input: I) -> String {
+fn trav_tree_with<'i, I: Input<'i>, R: RuleType, N: TypedNode<'i, R> + PairTree<'i, R> + Pairs<'i, R> + AccShow>(input: I) -> String {
     let mut stack = Stack::new();
     let mut tracker = Tracker::<'i, R>::new(input);
     match N::try_parse_partial_with(input, &mut stack, &mut tracker) {
@@ -540,7 +561,7 @@ fn trav_tree_with<'i, I: Input<'i>, R: RuleType, N: TypedNode<'i, R> + PairTree<
         None => "v=fail".to_string(),
     }
 }
-fn trav_pair_with<'i, I: Input<'i>, R: RuleType, N: TypedNode<'i, R> + Pair<'i, R> + Pairs<'i, R>>(input: I) -> String {
+fn trav_pair_with<'i, I: Input<'i>, R: RuleType, N: TypedNode<'i, R> + Pair<'i, R> + Pairs<'i, R> + AccShow>(input: I) -> String {
     let mut stack = Stack::new();
     let mut tracker = Tracker::<'i, R>::new(input);
     match N::try_parse_partial_with(input, &mut stack, &mut tracker) {
@@ -548,7 +569,7 @@ fn trav_pair_with<'i, I: Input<'i>, R: RuleType, N: TypedNode<'i, R> + Pair<'i, 
         None => "v=fail".to_string(),
     }
 }
-pub fn run_trav_tree<'i, R: RuleType, N: TypedNode<'i, R> + PairTree<'i, R> + Pairs<'i, R>>(form: &str, a: usize, b: usize, input: &'i str) -> String {
+pub fn run_trav_tree<'i, R: RuleType, N: TypedNode<'i, R> + PairTree<'i, R> + Pairs<'i, R> + AccShow>(form: &str, a: usize, b: usize, input: &'i str) -> String {
     match form {
         "str" => trav_tree_with::<_, R, N>(input.as_input()),
         "pos" => match Position::new(input, a) {
@@ -562,7 +583,7 @@ pub fn run_trav_tree<'i, R: RuleType, N: TypedNode<'i, R> + PairTree<'i, R> + Pa
         _ => "v=badform".into(),
     }
 }
-pub fn run_trav_pair<'i, R: RuleType, N: TypedNode<'i, R> + Pair<'i, R> + Pairs<'i, R>>(form: &str, a: usize, b: usize, input: &'i str) -> String {
+pub fn run_trav_pair<'i, R: RuleType, N: TypedNode<'i, R> + Pair<'i, R> + Pairs<'i, R> + AccShow>(form: &str, a: usize, b: usize, input: &'i str) -> String {
     match form {
         "str" => trav_pair_with::<_, R, N>(input.as_input()),
         "pos" => match Position::new(input, a) {
